@@ -35,8 +35,8 @@ _FENCE = re.compile(r"```(?:js|solidity|sol|javascript)?\n(.*?)```", re.S)
 # are the same on every run (the verdict on them is the specification's, evaluated by TLC)
 RAND_TAG = "v1"
 RAND = {"C01": {"quick": (0, 30), "thorough": (0, 400)},
-        "C02": {"quick": (100, 10), "thorough": (100, 80)},
-        "C17": {"quick": (200, 10), "thorough": (200, 80)},
+        "C02": {"quick": (100, 10), "thorough": (100, 24)},
+        "C17": {"quick": (200, 10), "thorough": (200, 24)},
         "C04": {"quick": (300, 150), "thorough": (300, 3000)},
         "C05": {"quick": (1000, 60), "thorough": (1000, 900)},
         "C06": {"quick": (2000, 60), "thorough": (2000, 900)},
@@ -121,7 +121,10 @@ def trace_validate(chk, module, trace_path, describe, timeout=900, env=None):
     unevaluable = []
     while True:
         try:
-            r = vlib.tlc(module, workers=1, timeout=timeout, env=e, dfs=True, tag="tv", xmx="4g")
+            # (the heap follows the size of the trace: a 600 MB trace of projected trees needs far more than 4 GB as TLC values)
+            size = os.path.getsize(trace_path)
+            heap = "4g" if size < 120e6 else "12g" if size < 400e6 else "28g"
+            r = vlib.tlc(module, workers=1, timeout=timeout, env=e, dfs=True, tag="tv", xmx=heap)
             break
         except ToolError as err:
             msg = getattr(err, "first_error", "")
